@@ -109,6 +109,10 @@ def run(rep):
                 modT = fs[1][1]
                 sel_ok = fs[4] == [want_c] and fs[3] == el and not fs[5]
                 G = ('tf', founds[0], 1)
+                if not sel_ok and fs[4] == [want_c] and fs[3] == ('tf', el, 1) and not fs[5]:
+                    # `.iter().map(|(_, g)| g).find(|g| g.space == PushConstant)`: the elements are the variables themselves
+                    sel_ok = True
+                    G = founds[0]
         rep.check(sel_ok, 'C13.selection', 'selected-global', where,
                   f'the push-constant variable is not selected from module.global_variables by `space == PushConstant` alone ({E.show(founds[0], maxdepth=6) if founds else E.show(size, maxdepth=6)})',
                   ok_detail='module.global_variables.find(space == PushConstant)')
